@@ -16,7 +16,13 @@
 #ifndef W_NBUF
 #define W_NBUF 2         /* buffers owned by device 0 when it is open */
 #endif
-#define W_MAXLINES 3     /* max_lines of the open device: count[0] + count[1] = 2 + 1 */
+#ifndef W_CLBUF
+#define W_CLBUF 1
+#endif
+#ifndef W_MAXLINES
+#define W_MAXLINES 1     /* max_lines of the open device = count[0] + count[1].  1: a frame buffer is exactly a PROXY_QUEUE, which CBMC then
+                            models as a typed object (an oversized malloc becomes a byte array whose p_next has no points-to information) */
+#endif
 
 #define W_TMAX ((time_t) 1 << 32)     /* clock range of the claim: 0 <= time() < 2^32 */
 static PROXY_CLNT *W_cl[3];
@@ -37,13 +43,20 @@ static void w_init(void)
   C19.now = (time_t) in_u32();                      /* clock: any time in [0, 2^32) */
   C19.open_v4l2_ok = in_u8() & 1; C19.open_v4l_ok = in_u8() & 1;
   C19.has_decoder = in_u8() & 1;
+#ifdef DEVCASE   /* case split on what opening the device yields (keeps the allocation loops' trip counts concrete):
+                    0 V4L2 ok, 1 V4L2 fails + V4L ok, 2 opens but has no slicer, 3 cannot be opened, 4 opens but has no file descriptor */
+  C19.open_v4l2_ok = (DEVCASE == 0 || DEVCASE == 2 || DEVCASE == 4); C19.open_v4l_ok = (DEVCASE == 1); C19.has_decoder = (DEVCASE != 2);
+#endif
   C19.cap_fd = (int32_t) in_u32(); V_ASSUME(C19.cap_fd >= -1 && C19.cap_fd < 1024);
+#ifdef DEVCASE
+  C19.cap_fd = (DEVCASE == 4) ? -1 : 9;
+#endif
   C19.cap_scanning = (int32_t) in_u32();
   for (i = 0; i < C19_NUPD; i++) { C19.grant_mask[i] = in_u32(); C19.grant_err[i] = in_u8() & 1; }
-  C19.dec_start[0] = 7; C19.dec_start[1] = 320; C19.dec_count[0] = 2; C19.dec_count[1] = W_MAXLINES - 2;
+  C19.dec_start[0] = 7; C19.dec_start[1] = 320; C19.dec_count[0] = 1; C19.dec_count[1] = W_MAXLINES - 1;
   C19.dec_scanning = (in_u8() & 1) ? 625 : 525;
   C19.ioctl_ret = (int32_t) in_u32();
-  memset(&proxy, 0, sizeof proxy);
+  /* `proxy` is the zero-initialised static of the unit (one harness run per process / solver run) */
   proxy.tcp_ip_fd = -1;
   proxy.dev_count = 2;
   for (i = 0; i < 2; i++) {
@@ -100,23 +113,32 @@ static int inv_sched(const PROXY_CLNT *c)
          c->chn_state.last_start >= 0 && c->chn_state.last_start < W_TMAX &&
          c->io.lastIoTime >= 0 && c->io.lastIoTime < W_TMAX;
 }
-/* msg: message buffer symbolic too (the acting client); bystanders get a zero buffer */
+/* msg: message buffer symbolic too (the acting client); bystanders get a zero buffer.
+ * The struct is filled member by member: a byte copy over a struct that holds pointers makes CBMC's points-to
+ * sets of p_next / p_sliced / pWriteBuf collapse (every pointer member "may point" to every object). */
 static PROXY_CLNT *w_client(int dev, int msg)
 {
-  PROXY_CLNT *c = malloc(sizeof *c);
-  if (msg) in_bytes(c, sizeof *c);
-  else {
-    memset(&c->msg_buf, 0, sizeof c->msg_buf);
-    in_bytes(c, offsetof(PROXY_CLNT, msg_buf));
-    in_bytes(&c->services, sizeof *c - offsetof(PROXY_CLNT, services));
-  }
+  PROXY_CLNT *c = calloc(1, sizeof *c);
+  unsigned i;
+  c->state = (REQ_STATE) in_u8();
+  c->io.sock_fd = (int) in_u16(); c->io.lastIoTime = (time_t) in_u32();
+  c->io.writeLen = in_u32(); c->io.writeOff = in_u32(); c->io.readLen = 0; c->io.readOff = 0;
+  c->endianSwap = in_u8() & 1; c->client_flags = (VBI_PROXY_CLIENT_FLAGS) in_u32();
+  if (msg) in_bytes(&c->msg_buf, sizeof c->msg_buf);
+  for (i = 0; i < 4; i++) c->services[i] = in_u32();
+  c->all_services = in_u32();
+  for (i = 0; i < 2; i++) { c->vbi_start[i] = in_int(); c->vbi_count[i] = in_int(); }
+  c->buffer_overflow = in_u8() & 1;
+  in_bytes(&c->chn_profile, sizeof c->chn_profile);
+  c->chn_state.token_state = (REQ_TOKEN_STATE) in_u8(); c->chn_state.is_completed = in_u8() & 1; c->chn_state.cycle_count = (int) in_u8();
+  c->chn_state.last_start = (time_t) in_u32(); c->chn_state.last_duration = (time_t) in_u32();
+  c->chn_prio = (VBI_CHN_PRIO) in_u32(); c->chn_status_ind = (VBI_PROXY_CHN_FLAGS) in_u32();
   c->p_next = NULL; c->dev_idx = dev; c->p_sliced = NULL;
   V_ASSUME((unsigned) c->state <= REQ_STATE_FORWARD);                     /* CLOSED clients are unlinked at once */
   V_ASSUME((unsigned) c->chn_state.token_state <= REQ_TOKEN_RETURNED);
-  V_ASSUME(c->buffer_count >= 0 && c->buffer_count <= 2);                 /* bound: client asks for <= 2 buffers */
+  c->buffer_count = W_CLBUF;                                              /* bound: buffers asked for by every client (concrete: it is the trip count of the allocation loops) */
   V_ASSUME(c->io.sock_fd >= 0 && c->io.sock_fd < 1024);
   V_ASSUME(inv_sched(c));
-  V_ASSUME(c->io.readOff == 0 && c->io.readLen == 0);
   if (c->io.writeLen != 0) {                                              /* a reply is on its way out */
     V_ASSUME(c->io.writeLen >= sizeof(VBIPROXY_MSG_HEADER) && c->io.writeLen <= sizeof(c->msg_buf) && c->io.writeOff < c->io.writeLen);
     c->io.pWriteBuf = &c->msg_buf;
